@@ -526,7 +526,6 @@ func callsIn(b *ssa.BasicBlock) []*ssa.Call {
 	return out
 }
 
-
 // ctorScope: the parser constructor, its closures (range-over-func bodies included) and the unexported functions of the
 // package that are called only from inside that scope (a constructor split into helpers), to depth 3.
 func (c *Ctx) ctorScope(a *parserAnchors) []*ssa.Function {
